@@ -4,10 +4,11 @@
 //   hx_raft replay  --file F --out DIR                    explicit event lists, one per line: "[G:d1,d2 ]<nodes> (T ..) (D ..) ..."
 //   hx_raft live    --seed S --n N --out DIR              fault-free timed simulations (C30): real timeouts, every message delivered
 //   hx_raft explore --depth D --budget B --out DIR        bounded exhaustive exploration of 3-node clusters (search only)
-//   hx_raft probe                                         print the revision bits "ab" of the election code found by behaviour
-// Every sub-command takes --rev <ab> (default 00): the revision of the election code the check read from the source
-// tree (a: vote_request adopts the term, b: response() counts a Vote/Ok only for the current term); it is written
-// into the case lines (`raft run r<ab> ...`) so that the model runs the same revision.
+//   hx_raft probe                                         print the revision bits "abc" of raft.rs found by behaviour
+// Every sub-command takes --rev <abc> (default 000): the revision of raft.rs the check read from the source
+// tree (a: vote_request adopts the term, b: response() counts a Vote/Ok only for the current term, c: a leader counts
+// only acknowledgements of its current term — rows reset at election, Ok answers of other terms ignored); it is written
+// into the case lines (`raft run r<abc> ...`) so that the model runs the same revision.
 // Files written to DIR: cases.txt (input of the model driver), impl.txt (implementation's observations, same order),
 // oracle.txt (direct violations of the properties on the implementation), stats.json.
 mod raft {
@@ -117,12 +118,64 @@ impl Out {
 
 // ---------------------------------------------------------------- revision probe
 
-/// Which of the two election repairs the raft.rs under test has, determined by BEHAVIOUR on one scripted
-/// 3-node history (independent of --rev, which the check derives from the source text; the check compares the two):
+/// Which repairs the raft.rs under test has, determined by BEHAVIOUR on scripted 3-node histories (independent of
+/// --rev, which the check derives from the source text; the check compares the two):
 ///   a = after granting a Vote request of term 1 the voter's term is 1 (vote_request adopts the term);
-///   b = a candidate of term 2 that receives the Ok answer to its Vote request of term 1 does not mark the voter.
-/// Returns "ab" (or "??" if the scripted history did not unfold as expected).
-fn probe_rev() -> String {
+///   b = a candidate of term 2 that receives the Ok answer to its Vote request of term 1 does not mark the voter;
+///   c = (probe_ack) a node that becomes Leader clears the (index, term, commit) rows of the other nodes AND a Leader of
+///       term 3 ignores the Ok answer to its Append request of term 1 ('?' if only one of the two halves is present).
+/// Returns "abc" ("??" + c if the first scripted history did not unfold as expected, c = '?' if the second did not).
+fn probe_rev() -> String { format!("{}{}", probe_election(), probe_ack()) }
+
+/// bit c of the revision.  One history: node 0 is Leader of term 1, appends entry 1, node 2 acknowledges it (row[2] of
+/// node 0 = 1.1.0), node 1 acknowledges it too but that answer stays in flight; node 2 is elected for term 2 and its
+/// heartbeat makes node 0 a follower; node 0 is elected for term 3 — are the rows of the others cleared? — and then
+/// receives the old Ok answer to its Append of term 1 — is row[1] written?
+fn probe_ack() -> char {
+    let mut w = World::new(3);
+    let find = |w: &World, pre: &str| -> Option<usize> { w.net.iter().position(|m| m.show().starts_with(pre)) };
+    let deliver = |w: &mut World, pre: &str, elapsed: u64| -> bool {
+        match find(w, pre) { Some(k) => { w.apply(&Ev::Deliver { k, elapsed }); true } None => false }
+    };
+    let late = sim::TT_MS + 1;
+    // node 0 elected for term 1 by node 1; heartbeats delivered and answered
+    w.apply(&Ev::Tick { i: 0, elapsed: 0, due: vec![] });
+    for pre in ["Q(P:0>1:", "R(ok;P:0>1:", "Q(V:0>1:t1:", "R(ok;V:0>1:t1:", "Q(H:0>1:t1:", "R(ok;H:0>1:t1:", "Q(H:0>2:t1:", "R(ok;H:0>2:t1:"] {
+        if !deliver(&mut w, pre, 0) { return '?'; }
+    }
+    if !(w.nodes[0].vx_is_leader() && w.nodes[0].vx_term() == 1) { return '?'; }
+    // entry 1: acknowledged by node 2 (counted: row[2] = 1.1.0, committed), acknowledged by node 1 (answer kept in flight)
+    w.apply(&Ev::Append { i: 0, d: 7 });
+    for pre in ["Q(A:0>2:t1:", "R(ok;A:0>2:t1:", "Q(A:0>1:t1:"] {
+        if !deliver(&mut w, pre, 0) { return '?'; }
+    }
+    if w.nodes[0].vx_peers()[2].0 != 1 || find(&w, "R(ok;A:0>1:t1:").is_none() { return '?'; }
+    // node 2 elected for term 2 by node 1
+    w.apply(&Ev::Tick { i: 2, elapsed: late, due: vec![] });
+    let et2 = w.nodes[2].vx_et_ms();
+    w.apply(&Ev::Tick { i: 2, elapsed: et2, due: vec![] });
+    if !deliver(&mut w, "Q(P:2>1:", late) || !deliver(&mut w, "R(ok;P:2>1:", 0) { return '?'; }
+    w.apply(&Ev::Tick { i: 1, elapsed: late, due: vec![] });
+    if !deliver(&mut w, "Q(V:2>1:t2:", 0) || !deliver(&mut w, "R(ok;V:2>1:t2:", 0) { return '?'; }
+    if !(w.nodes[2].vx_is_leader() && w.nodes[2].vx_term() == 2) { return '?'; }
+    if !deliver(&mut w, "Q(H:2>0:t2:", 0) { return '?'; }
+    if w.nodes[0].vx_follows() != Some(2) || w.nodes[0].vx_peers()[2].0 != 1 { return '?'; }
+    // node 0 elected for term 3 by node 1
+    w.apply(&Ev::Tick { i: 0, elapsed: late, due: vec![] });
+    w.apply(&Ev::Tick { i: 0, elapsed: 0, due: vec![] });
+    for pre in ["Q(P:0>1:", "R(ok;P:0>1:", "Q(V:0>1:t3:", "R(ok;V:0>1:t3:"] {
+        if !deliver(&mut w, pre, 0) { return '?'; }
+    }
+    if !(w.nodes[0].vx_is_leader() && w.nodes[0].vx_term() == 3) { return '?'; }
+    let reset = w.nodes[0].vx_peers()[2].0 == 0;
+    if w.nodes[0].vx_peers()[1].0 != 0 { return '?'; }
+    // the Ok answer to the Append request of term 1 arrives at the Leader of term 3
+    if !deliver(&mut w, "R(ok;A:0>1:t1:", 0) { return '?'; }
+    let guard = w.nodes[0].vx_peers()[1].0 == 0;
+    match (reset, guard) { (true, true) => '1', (false, false) => '0', _ => '?' }
+}
+
+fn probe_election() -> String {
     let mut w = World::new(3);
     let find = |w: &World, pre: &str| -> Option<usize> { w.net.iter().position(|m| m.show().starts_with(pre)) };
     let mut deliver = |w: &mut World, pre: &str| -> bool {
@@ -366,9 +419,9 @@ fn main() {
     let outdir = arg(&args, "--out", ".");
     std::fs::create_dir_all(&outdir).unwrap();
     std::panic::set_hook(Box::new(|_| {}));
-    let rev = arg(&args, "--rev", "00");
-    if rev.len() != 2 || !rev.chars().all(|c| c == '0' || c == '1') { eprintln!("bad --rev {}", rev); std::process::exit(2); }
-    sim::set_rev(&rev[0..1] == "1", &rev[1..2] == "1");
+    let rev = arg(&args, "--rev", "000");
+    if rev.len() != 3 || !rev.chars().all(|c| c == '0' || c == '1') { eprintln!("bad --rev {}", rev); std::process::exit(2); }
+    sim::set_rev(&rev[0..1] == "1", &rev[1..2] == "1", &rev[2..3] == "1");
     if cmd == "probe" { println!("{}", probe_rev()); return; }
     let mut out = Out::default();
     let mut rng = Rng::new(seed);
